@@ -583,10 +583,12 @@ def _has_ite(t):
         if y.get_id() in seen:
             continue
         seen.add(y.get_id())
-        if z3.is_app(y) and y.decl().kind() == z3.Z3_OP_ITE:
+        if z3.is_quantifier(y):          # lambdas are not allowed inside patterns
             return True
-        if not z3.is_quantifier(y):
-            st.extend(y.children())
+        if z3.is_app(y) and y.decl().kind() in (z3.Z3_OP_ITE, z3.Z3_OP_AND, z3.Z3_OP_OR, z3.Z3_OP_NOT, z3.Z3_OP_EQ,
+                                                 z3.Z3_OP_LE, z3.Z3_OP_LT, z3.Z3_OP_GE, z3.Z3_OP_GT, z3.Z3_OP_IMPLIES):
+            return True
+        st.extend(y.children())
     return False
 
 
